@@ -1,13 +1,14 @@
 """Witness for a failed VU-bind clause: the corresponding probe through the real S3Service::call with the recording backend."""
 def find(ctx, oblig, diag):
     case = ("content-length-buffered" if "already_buffered" in oblig else "content-length-empty" if "empty_body" in oblig
+            else "duplicate-query-timestamp" if "timestamp_query" in oblig else "duplicate-header-timestamp" if "timestamp_header" in oblig
             else "duplicate-query" if "query" in oblig else "duplicate-header")
     res = ctx["replay_tool"](["bind", case])
     if res.get("violates"): res["source"] = "probe request through S3Service::call"
     return res
 def standing(ctx, oblig, diag):
     res = None
-    for case in ("duplicate-query", "duplicate-header"):
+    for case in ("duplicate-query", "duplicate-header", "duplicate-query-timestamp", "duplicate-header-timestamp"):
         res = ctx["replay_tool"](["bind", case])
         if res.get("violates"): res["source"] = "probe request through S3Service::call"; return res
     return res
